@@ -46,7 +46,22 @@ namespace hmac_hash {
      
         // Reset counters
         m_transforms = 0;
+        wipe_buffer();
         m_buffer.clear();
+        // update() buffers at most one block and finish() pads to at most two:
+        // reserving once means the buffer is never reallocated with data in it
+        m_buffer.reserve(2 * BLOCK_SIZE);
+    }
+
+    SHA1::~SHA1() {
+        wipe_buffer();
+    }
+
+    // The buffer holds message bytes (key material when HMAC hashes a long key,
+    // PBKDF2 intermediate blocks, ...): zero them before the storage is reused or freed.
+    void SHA1::wipe_buffer() {
+        volatile uint8_t* p = m_buffer.data();
+        for (size_t i = 0, n = m_buffer.size(); i < n; ++i) p[i] = 0;
     }
     
     void SHA1::update(const uint8_t *message, size_t length) {
@@ -62,6 +77,7 @@ namespace hmac_hash {
                 uint32_t block[16];
                 buffer_to_block(m_buffer.data(), block);
                 transform(block);
+                wipe_buffer();
                 m_buffer.clear();
             }
         }
@@ -107,6 +123,7 @@ namespace hmac_hash {
             digest[i * 4 + 2] = static_cast<uint8_t>((m_h[i] >>  8) & 0xFF);
             digest[i * 4 + 3] = static_cast<uint8_t>((m_h[i] >>  0) & 0xFF);
         }
+        wipe_buffer();
     }
 
     // Hash a single 512-bit block. This is the core of the algorithm.
